@@ -6,6 +6,13 @@ correspondence : raw kernels of graph.h (serial / parallel MIS with replayed wei
                  and Model/KNum.lean, exact integer / rational equality.
 search         : public functions of pyamg/graph.py judged by the specification itself (independent
                  Python checkers, SciPy csgraph as a second opinion, and the Lean-proved `checkMIS`).
+extension E20  : `bellman_ford_balanced` (kernel on the wrapper's and on the Lloyd loop's initial arrays, second call on
+                 its own final state, tiebreaking on/off, dyadic weights with ties, some zero weights) and the public
+                 `bellman_ford(method='balanced')` (repeated / negative centres, CSC input) vs Model/ExtC18Bal.lean: exact
+                 equality of d, m, p, pc, s and the returned flag; `pseudo_peripheral_node` and `symmetric_rcm` (NumPy's
+                 global generator replayed; CSR sorted / unsorted rows, CSC, with and without stored diagonal, disconnected
+                 graphs, some nonsymmetric patterns) vs Model/ExtC18Rcm.lean: the model's permutation must reproduce the
+                 returned matrix exactly.  The model is asked first; the real balanced kernel runs in a forked worker.
 """
 import hashlib
 import itertools
@@ -22,12 +29,20 @@ META = {
             '(paths, stars, cycles, cliques, isolated pairs, grids, two components, Erdos-Renyi; some with self loops, some '
             'nonsymmetric for the kernel correspondence) up to n = 40; weights dyadic with ties; a case is non-trivial when '
             'the graph has an edge; distinct = distinct (routine, graph, parameters)',
-    'search_only': ['balanced Bellman-Ford, RCM: specification checkers on the real outputs (no Lean model)',
+    'search_only': ['balanced Bellman-Ford: termination (the kernel gives up after n*n sweeps with a C++ exception) is not a theorem; '
+                    'the check never met it on the unchanged tree; RCM: only "permutation" is a theorem, bandwidth quality is not judged',
                     'Jones-Plassmann / LDF colourings and distance-k MIS through the public wrappers (random real weights): '
                     'specification checkers; the kernels themselves are compared exactly with Model/ExtGraph.lean on tied '
                     'integer weights (theorems coloring_jp_total, coloring_ldf_total, mis_k_total)'],
-    'partial': ['rcm: only the wrapper contract (symmetric permutation) is checked'],
-    'assumptions': ['random weights drawn inside the public wrappers are not replayed (their outputs are judged by the spec)',
+    'partial': [],
+    'assumptions': ['balanced Bellman-Ford theorems (bf_balanced_kernel, bf_balanced_wrapper) assume weights in h*N with '
+                    '2*tol < h (tol = 1e-14 is the kernel constant): then the two float tests are exact (theorem '
+                    'bf_balanced_tests_exact); the generator draws weights from {0, 0.5, 1, 1.5, 2} (h = 0.5), for which float '
+                    'arithmetic is exact as well; they speak about runs that return (model result `ok`): out-of-bounds accesses '
+                    '(`fault`, only met with zero weights, where the real kernel is then not run) and the kernel\'s "too many '
+                    'iterations" exception are outside',
+                    'rcm_total assumes a symmetric pattern with column indices < n and a start node < n (int(rand()*n) always is)',
+                    'random weights drawn inside the public wrappers are not replayed (their outputs are judged by the spec)',
                     'maximal_independent_set_k_parallel: theorem mis_k_total needs all weights > -1 (the kernel marks decided '
                     'nodes with the value -1; a weight <= -1 next to a decided node makes max_iters=-1 loop forever); the '
                     'generator draws the weights of the unbounded call from {0,1,2}, the wrapper from [0,1)'],
@@ -155,6 +170,91 @@ def check_bf(G, centers, d, m, p):
     return None
 
 
+# ---------------------------------------------------------------- guarded execution of the balanced kernel
+
+class _Guard:
+    """Runs calls of the balanced Bellman-Ford code in a forked worker: the kernel's C++ `throw` (or heap corruption)
+    cannot be caught through the ctypes shim and would otherwise take the whole check down.  `call` returns
+    ('ok', result) / ('raised', 'ExcName: text') / ('crashed', 'signal k')."""
+
+    def __init__(self):
+        self.pid = None
+
+    def _spawn(self):
+        import os
+        import pickle
+        r1, w1 = os.pipe()
+        r2, w2 = os.pipe()
+        pid = os.fork()
+        if pid == 0:
+            try:
+                os.close(w1)
+                os.close(r2)
+                fin = os.fdopen(r1, 'rb')
+                fout = os.fdopen(w2, 'wb')
+                while True:
+                    try:
+                        name, args = pickle.load(fin)
+                    except EOFError:
+                        break
+                    try:
+                        res = ('ok', _GUARDED[name](*args))
+                    except Exception as ex:            # noqa: BLE001
+                        res = ('raised', f'{type(ex).__name__}: {ex}')
+                    pickle.dump(res, fout)
+                    fout.flush()
+            finally:
+                os._exit(0)
+        os.close(r1)
+        os.close(w2)
+        self.pid, self.fout, self.fin = pid, os.fdopen(w1, 'wb'), os.fdopen(r2, 'rb')
+
+    def call(self, name, *args):
+        import os
+        import pickle
+        if self.pid is None:
+            self._spawn()
+        try:
+            pickle.dump((name, args), self.fout)
+            self.fout.flush()
+            return pickle.load(self.fin)
+        except (EOFError, BrokenPipeError, pickle.UnpicklingError):
+            _, status = os.waitpid(self.pid, 0)
+            self.close(wait=False)
+            return ('crashed', f'signal {os.WTERMSIG(status)}' if os.WIFSIGNALED(status) else f'exit status {status}')
+
+    def close(self, wait=True):
+        import os
+        if self.pid is None:
+            return
+        for f in (self.fout, self.fin):
+            try:
+                f.close()
+            except Exception:                          # noqa: BLE001
+                pass
+        if wait:
+            try:
+                os.waitpid(self.pid, 0)
+            except ChildProcessError:
+                pass
+        self.pid = None
+
+
+def _g_kernel(n, indptr, indices, data, centers, st, tb):
+    from pyamg import amg_core
+    st = tuple(a.copy() for a in st)
+    ch = amg_core.bellman_ford_balanced(n, indptr, indices, data, centers, *st, tb)
+    return st, bool(ch)
+
+
+def _g_public(G, centers, method, tb):
+    import pyamg.graph as PG
+    return PG.bellman_ford(G, centers, method=method, tiebreaking=tb)
+
+
+_GUARDED = {'kernel': _g_kernel, 'public': _g_public}
+
+
 # ---------------------------------------------------------------- graph streams
 
 def graph_stream(ctx, nmax_exh, n_rand, nmax_rand):
@@ -166,6 +266,84 @@ def graph_stream(ctx, nmax_exh, n_rand, nmax_rand):
         n = int(rng.integers(1, nmax_rand + 1))
         M, kind = gen.rand_graph(rng, n)
         yield M, kind
+
+
+def loop_stream(nmax):
+    """every labelled graph on <= nmax vertices with every non-empty subset of self loops (stored diagonal entries)"""
+    for n in range(1, nmax + 1):
+        for M in gen.all_graphs(n):
+            for bits in range(1, 1 << n):
+                L = M.copy()
+                for i in range(n):
+                    if bits >> i & 1:
+                        L[i, i] = 1
+                yield L, f'loops{n}'
+
+
+ALT_FMTS = ('csc', 'dense', 'csr-unsorted', 'coo')
+
+
+def _variants(ctx, graphs):
+    """(adjacency incl. self loops, kind, input format) for the public-API part: exhaustive graphs are passed as CSR and in
+    one more input form; the random ones get self loops on all / some vertices and cycle through the input forms"""
+    rng = ctx.np_rng
+    for t, (M, kind) in enumerate(graphs):
+        M = np.array(M)
+        n = M.shape[0]
+        if kind == 'replay':
+            for fmt in ('csr',) + ALT_FMTS:
+                yield M, kind, fmt
+        elif kind.startswith('all') or kind.startswith('loops'):
+            yield M, kind, 'csr'
+            yield M, kind, ALT_FMTS[t % 4]
+        else:
+            if t % 4 == 0:
+                M = M + np.eye(n, dtype=int)                       # self loops / stored diagonal everywhere
+            elif t % 4 == 2:
+                M = M + np.diag(rng.integers(0, 2, size=n))        # ... on some vertices
+            yield M, kind, ('csr', 'csc', 'csr', 'dense', 'csr-unsorted', 'coo')[t % 6]
+
+
+def _as_fmt(G, fmt, rng):
+    """the graph of the CSR array G in another input form accepted by pyamg.graph (same edges, same weights)"""
+    if fmt == 'csc':
+        H = sp.csc_array(G)
+        H.indptr = H.indptr.astype(np.int32)
+        H.indices = H.indices.astype(np.int32)
+        return H
+    if fmt == 'dense':
+        return G.toarray()
+    if fmt == 'coo':
+        return sp.coo_array(G)
+    if fmt == 'csr-unsorted' and G.nnz:
+        ip, ix, dx = G.indptr, G.indices.copy(), G.data.copy()
+        for i in range(G.shape[0]):
+            q = rng.permutation(ip[i + 1] - ip[i]) + ip[i]
+            ix[ip[i]:ip[i + 1]] = ix[q]
+            dx[ip[i]:ip[i + 1]] = dx[q]
+        return sp.csr_array((dx, ix, ip), shape=G.shape)
+    return G
+
+
+def check_nearest(G, centers, cl):
+    """cluster ids `cl` are nearest-centre labels for the centre list `centers` (ties: any nearest centre), -1 iff no
+    centre is reachable"""
+    n = G.shape[0]
+    ref = shortest(G, centers)
+    per = {}
+    for j in range(n):
+        if ref[j] is None:
+            if cl[j] != -1:
+                return f'node {j} cannot be reached from a centre but is labelled {int(cl[j])}'
+            continue
+        if not 0 <= cl[j] < len(centers):
+            return f'node {j}: cluster id {int(cl[j])} out of range'
+        c = int(centers[cl[j]])
+        if c not in per:
+            per[c] = dist_from(G, c)
+        if per[c][j] != ref[j]:
+            return f'node {j} is in the cluster of centre {c} at distance {per[c][j]}, the nearest centre is at {ref[j]}'
+    return None
 
 
 # ---------------------------------------------------------------- part A: kernels vs Lean models
@@ -278,46 +456,48 @@ def part_a(ctx, graphs, with_variants=True):
 def part_b(ctx, graphs):
     import pyamg.graph as PG
     rng = ctx.np_rng
+    guard = _Guard()
     lean_lines, lean_meta = [], []
-    for t, (M, kind) in enumerate(graphs):
-        M = np.array(M)
+    for t, (M, kind, fmt) in enumerate(_variants(ctx, graphs)):
         n = M.shape[0]
-        if kind.startswith('all') is False and t % 4 == 0:
-            M = M + np.eye(n, dtype=int)          # self loops / stored diagonal
-        G = _csr((M != 0).astype(float))
-        adj = adj_lists(G)
+        Gc = _csr((M != 0).astype(float))         # the reference form (checkers, Lean lines)
+        G = _as_fmt(Gc, fmt, rng)                 # what the public functions are given
+        adj = adj_lists(Gc)
         has_edge = any(adj)
-        case0 = {'M': M.tolist()}
+        case0 = {'M': M.tolist(), 'format': fmt}
+        ctx.feat('api_format:' + fmt)
+        if M.diagonal().any():
+            ctx.feat('api_graph:self loops')
 
         def viol(what, extra=None):
-            ctx.violation(what, {**case0, **(extra or {})})
+            ctx.violation(what + f' [input format {fmt}]', {**case0, **(extra or {})})
 
         def reg(name, **kw):
-            ctx.case(key=_key(name, M.tobytes(), sorted(kw.items())), nontrivial=has_edge,
-                     sample={'routine': name, 'n': n, 'graph': kind, **kw} if ctx.evaluations % 997 == 0 else None)
+            ctx.case(key=_key(name, M.tobytes(), fmt, sorted(kw.items())), nontrivial=has_edge,
+                     sample={'routine': name, 'n': n, 'graph': kind, 'format': fmt, **kw} if ctx.evaluations % 997 == 0 else None)
             ctx.feat('api:' + name)
-        # --- MIS
+        # --- MIS: the whole option grid algo x k, each judged at the distance actually requested
         for algo in ('serial', 'parallel'):
-            np.random.seed(int(rng.integers(2**31)))
-            x = PG.maximal_independent_set(G, algo=algo)
-            reg('mis', algo=algo)
-            e = check_mis(adj, x)
-            if e:
-                viol(f'maximal_independent_set(algo={algo}): {e}; result {list(map(int, x))}', {'routine': 'mis', 'algo': algo})
-            lean_lines.append(f'check_mis {n} {enc_ints(G.indptr)} {enc_ints(G.indices)} {enc_ints(x)}')
-            lean_meta.append((algo, case0, x))
-        if t % 2 == 0:
-            k = int(rng.integers(1, 4))
-            np.random.seed(int(rng.integers(2**31)))
-            x = PG.maximal_independent_set(G, k=k)
-            reg('mis_k', k=k)
-            e = check_mis(adj, x, k=k)
-            if e:
-                viol(f'maximal_independent_set(k={k}): {e}; result {list(map(int, x))}', {'routine': 'mis_k', 'k': k})
+            for k in (None, 1, 2, 3, 4):
+                np.random.seed(int(rng.integers(2**31)))
+                kw = {'algo': algo} if k is None else {'algo': algo, 'k': k}
+                if algo == 'serial' and t % 2:
+                    del kw['algo']                # the default spelled out / left out
+                x = PG.maximal_independent_set(G, **kw)
+                reg('mis' if k is None else 'mis_k', **kw)
+                ctx.feat(f'mis_grid:{algo}:k={k}')
+                e = None if len(x) == n else f'result has length {len(x)}'
+                e = e or check_mis(adj, x, k=k or 1)
+                if e:
+                    viol(f'maximal_independent_set({", ".join(f"{a}={b!r}" for a, b in kw.items())}): {e}; '
+                         f'result {list(map(int, x))}', {'routine': 'mis', **kw})
+                if k is None:
+                    lean_lines.append(f'check_mis {n} {enc_ints(Gc.indptr)} {enc_ints(Gc.indices)} {enc_ints(x)}')
+                    lean_meta.append((algo, case0, x))
         # --- colourings
         for method in ('MIS', 'JP', 'LDF'):
             np.random.seed(int(rng.integers(2**31)))
-            c = PG.vertex_coloring(G, method=method)
+            c = PG.vertex_coloring(G, **({} if method == 'MIS' and t % 2 else {'method': method}))
             reg('coloring', method=method)
             e = check_coloring(adj, c)
             if e:
@@ -325,44 +505,112 @@ def part_b(ctx, graphs):
         # --- components
         comp = PG.connected_components(G)
         reg('cc')
-        ncomp, lab = csgraph.connected_components(sp.csr_array(G), directed=False)
-        same = all((comp[i] == comp[j]) == (lab[i] == lab[j]) for i in range(n) for j in range(i))
+        ncomp, lab = csgraph.connected_components(sp.csr_array(Gc), directed=False)
+        same = len(comp) == n and all((comp[i] == comp[j]) == (lab[i] == lab[j]) for i in range(n) for j in range(i))
         if not same or sorted(set(int(v) for v in comp)) != list(range(ncomp)):
             viol(f'connected_components: labels {list(map(int, comp))} do not describe the components {lab.tolist()}', {'routine': 'cc'})
-        # --- BFS
-        seed = int(rng.integers(0, n))
-        order, level = PG.breadth_first_search(G, seed)
-        reg('bfs', seed=seed)
-        Gs = sp.csr_array(G.copy())
+        # --- BFS: every seed on small graphs, a few on the larger ones
+        Gs = sp.csr_array(Gc.copy())
         Gs.data[:] = 1.0
-        ref = csgraph.shortest_path(Gs, directed=False, unweighted=True, indices=seed) if n > 0 else np.zeros(0)
-        lvl_ref = [-1 if not np.isfinite(v) else int(v) for v in ref]
-        reach = [i for i in range(n) if lvl_ref[i] >= 0]
-        if list(map(int, level)) != lvl_ref:
-            viol(f'breadth_first_search(seed={seed}): levels {list(map(int, level))} != hop counts {lvl_ref}', {'routine': 'bfs', 'seed': seed})
-        else:
-            o = [int(v) for v in order[:len(reach)]]
-            if sorted(o) != reach or any(lvl_ref[o[a]] > lvl_ref[o[a + 1]] for a in range(len(o) - 1)):
-                viol(f'breadth_first_search(seed={seed}): order {o} is not a level-ordered listing of the reachable set', {'routine': 'bfs', 'seed': seed})
-        # --- Bellman-Ford (symmetric positive weights, ties)
-        Wm = np.triu(M != 0, 1) * rng.choice([0.5, 1.0, 1.0, 2.0, 3.0], size=(n, n))
-        Wm = Wm + Wm.T
-        Gw = _csr(Wm)
+
+        def judge_bfs(what, seed, order, level, extra):
+            ref = csgraph.shortest_path(Gs, directed=False, unweighted=True, indices=seed) if n > 0 else np.zeros(0)
+            lvl_ref = [-1 if not np.isfinite(v) else int(v) for v in ref]
+            reach = [i for i in range(n) if lvl_ref[i] >= 0]
+            if list(map(int, level)) != lvl_ref:
+                viol(f'{what}: levels {list(map(int, level))} != hop counts {lvl_ref} from node {seed}', extra)
+            else:
+                o = [int(v) for v in order[:len(reach)]]
+                if sorted(o) != reach or any(lvl_ref[o[a]] > lvl_ref[o[a + 1]] for a in range(len(o) - 1)) or (o and o[0] != seed):
+                    viol(f'{what}: order {o} is not a level-ordered listing of the set reachable from node {seed}', extra)
+        seeds = list(range(n)) if n <= 6 else sorted(set(int(v) for v in rng.integers(0, n, size=3)))
+        for seed in seeds:
+            sarg = (seed, np.int32(seed), np.int64(seed))[(t + seed) % 3]
+            order, level = PG.breadth_first_search(G, sarg)
+            reg('bfs', seed=seed)
+            judge_bfs(f'breadth_first_search(seed={seed})', seed, order, level, {'routine': 'bfs', 'seed': seed})
+        # --- Bellman-Ford (symmetric positive weights with ties; a self loop carries a positive weight as well):
+        #     methods x tiebreaking, centres given as list / int64 array / int32 array
+        Wm = np.triu(M != 0, 0) * rng.choice([0.5, 1.0, 1.0, 2.0, 3.0], size=(n, n))
+        Wm = Wm + np.triu(Wm, 1).T
+        Gwc = _csr(Wm)
+        Gw = _as_fmt(Gwc, fmt, rng)
         k = int(rng.integers(1, min(n, 3) + 1))
         centers = rng.choice(n, size=k, replace=False).astype(np.int32)
-        for method in ('standard', 'balanced'):
-            d, m, p = PG.bellman_ford(Gw, centers, method=method)
-            reg('bellman_ford', method=method, k=k)
-            e = check_bf(Gw, centers, d, m, p)
+        carg = (centers.tolist(), centers.astype(np.int64), centers.copy())[t % 3]
+        for method, tb in (('standard', None), ('standard', False), ('balanced', True), ('balanced', False)):
+            kw = {'method': method} if tb is None else {'method': method, 'tiebreaking': tb}
+            if method == 'standard' and tb is None and t % 2:
+                kw = {}
+            reg('bellman_ford', k=k, **kw)
+            ctx.feat(f'bf_grid:{method}:tiebreaking={tb}')
+            extra = {'routine': 'bellman_ford', 'W': Wm.tolist(), 'centers': centers.tolist(), **kw}
+            if method == 'balanced':
+                status, res = guard.call('public', Gw, carg, method, tb)
+                if status != 'ok':
+                    viol(f'bellman_ford(centers={centers.tolist()}, {kw}) on positive weights did not return: {status} {res}', extra)
+                    continue
+                d, m, p = res
+            else:
+                d, m, p = PG.bellman_ford(Gw, carg, **kw)
+            e = check_bf(Gwc, centers, d, m, p) if len(d) == len(m) == len(p) == n else 'results of wrong length'
             if e:
-                viol(f'bellman_ford(method={method}, centers={centers.tolist()}): {e}',
-                     {'routine': 'bellman_ford', 'method': method, 'W': Wm.tolist(), 'centers': centers.tolist()})
+                viol(f'bellman_ford(centers={centers.tolist()}, {kw}): {e}', extra)
+        # --- Lloyd clustering: the cluster ids are nearest-centre labels for the centres the last sweep started from,
+        #     i.e. the centres returned with one sweep less; the returned centre of a cluster lies in that cluster
+        for mi in ((1, 2, 5) if t % 2 else (1, 3, None)):
+            by_count = (t + (mi or 0)) % 3 == 0                   # `centers` = number of clusters (drawn by the library)
+            Gl, lkind = Gw, 'real'
+            if (t + (mi or 0)) % 5 == 0 and fmt in ('csr', 'csc'):
+                Gl, lkind = Gw.astype(complex), 'complex'          # complex weights: abs(G) is the graph
+                Gl.data = Gl.data * (1j, -1.0, 0.6 + 0.8j, 1.0)[t % 4]
+            sd = int(rng.integers(2**31))
+
+            def lloyd(maxiter):
+                np.random.seed(sd)
+                c0 = k if by_count else centers.tolist()
+                return PG.lloyd_cluster(Gl, c0) if maxiter is None else PG.lloyd_cluster(Gl, c0, maxiter=maxiter)
+            reg('lloyd', k=k, maxiter=mi, by_count=by_count, weights=lkind)
+            ctx.feat(f'lloyd:maxiter={mi}:{"count" if by_count else "list"}:{lkind}')
+            extra = {'routine': 'lloyd', 'W': Wm.tolist(), 'centers': k if by_count else centers.tolist(), 'maxiter': mi,
+                     'np_seed': sd, 'weights': lkind}
+            try:
+                cl, cs = lloyd(mi)
+                _, cprev = lloyd((5 if mi is None else mi) - 1)
+            except Exception as ex:                                # noqa: BLE001
+                viol(f'lloyd_cluster(centers={extra["centers"]}, maxiter={mi}) raised {type(ex).__name__}: {ex}', extra)
+                continue
+            cs = [int(v) for v in cs]
+            e = None
+            if len(cl) != n or len(cs) != k or len(set(cs)) != k or not all(0 <= v < n for v in cs):
+                e = f'{k} clusters requested, returned centres {cs}, {len(cl)} labels'
+            elif not by_count and mi == 1 and sorted(int(v) for v in cprev) != sorted(centers.tolist()):
+                e = f'maxiter=0 returns the centres {list(map(int, cprev))}, given were {centers.tolist()}'
+            e = e or check_nearest(Gwc, [int(v) for v in cprev], cl)
+            if not e and any(cl[cs[a]] != a for a in range(k)):
+                e = f'returned centres {cs} do not lie in their own clusters'
+            if e:
+                viol(f'lloyd_cluster(centers={extra["centers"]}, maxiter={mi}, {lkind} weights): {e}; clusters '
+                     f'{list(map(int, cl))}, centres of the last sweep {list(map(int, cprev))}', extra)
+        # --- pseudo_peripheral_node (CSR / CSC only): the returned order / levels are a BFS from the returned node
+        if n >= 1:
+            Gp = G if fmt in ('csr', 'csc', 'csr-unsorted') else Gc
+            np.random.seed(int(rng.integers(2**31)))
+            reg('ppn')
+            try:
+                x, order, level = PG.pseudo_peripheral_node(Gp)
+                if not 0 <= int(x) < n:
+                    viol(f'pseudo_peripheral_node: node {x} out of range', {'routine': 'ppn'})
+                else:
+                    judge_bfs(f'pseudo_peripheral_node (returned node {int(x)})', int(x), order, level, {'routine': 'ppn'})
+            except Exception as ex:                                # noqa: BLE001
+                viol(f'pseudo_peripheral_node raised {type(ex).__name__}: {ex}', {'routine': 'ppn'})
         # --- RCM: a symmetric permutation of the input (distinct diagonal makes the permutation visible)
         if n >= 1:
             A = (M != 0).astype(float) * rng.integers(1, 5, size=(n, n))
             A = np.triu(A, 1)
             A = A + A.T + np.diag(np.arange(1, n + 1) * 10.0)
-            Ar = _csr(A)
+            Ar = _as_fmt(_csr(A), fmt if fmt in ('csc', 'csr-unsorted') else 'csr', rng)
             reg('rcm')
             try:
                 Bm = PG.symmetric_rcm(Ar).toarray()
@@ -397,12 +645,267 @@ def part_b(ctx, graphs):
                     except Exception as ex:
                         viol(f'symmetric_rcm raised {type(ex).__name__}: {ex}', {'routine': 'rcm_nodiag', 'A': A0.tolist()})
                         break
+    guard.close()
     outs = ctx.lean(lean_lines)
     for (algo, case0, x), o in zip(lean_meta, outs):
         ctx.feat('lean_checker:mis')
         if o != 'ok':
             ctx.violation(f'maximal_independent_set(algo={algo}) rejected by the proved checker checkMIS: result {list(map(int, x))}',
                           {**case0, 'routine': 'mis', 'algo': algo})
+
+
+# ---------------------------------------------------------------- part C (E20): balanced Bellman-Ford and RCM vs Lean models
+
+TOL = 1e-14          # the kernel's `const double tol`
+
+
+def _enc_d(d):
+    return ','.join('inf' if not np.isfinite(v) else enc_rat(v) for v in d) if len(d) else '-'
+
+
+def _bal_state(n, centers, init):
+    k = len(centers)
+    d = np.full(n, np.inf)
+    m = np.full(n, -1, dtype=np.int32)
+    p = np.full(n, -1, dtype=np.int32)
+    pc = np.zeros(n, dtype=np.int32)
+    s = np.ones(k, dtype=np.int32)
+    d[centers] = 0
+    m[centers] = np.arange(k)
+    if init == 'lloyd':            # the initialisation of balanced_lloyd_cluster: a centre is its own predecessor
+        p[centers] = centers
+        pc[centers] = 1
+    return d, m, p, pc, s
+
+
+def _bal_line(G, tb, st):
+    d, m, p, pc, s = st
+    return (f'ext_c18_bfbal {G.shape[0]} {enc_ints(G.indptr)} {enc_ints(G.indices)} {enc_rats(G.data)} {enc_rat(TOL)} '
+            f'{int(tb)} {_enc_d(d)} {enc_ints(m)} {enc_ints(p)} {enc_ints(pc)} {enc_ints(s)}')
+
+
+def _bal_out(st, changed):
+    d, m, p, pc, s = st
+    return ';'.join([_enc_d(d), enc_ints(m), enc_ints(p), enc_ints(pc), enc_ints(s), 'true' if changed else 'false'])
+
+
+def part_c_bal(ctx, graphs):
+    """kernel `bellman_ford_balanced` and the public wrapper vs Model/ExtC18Bal.lean (exact).  The model is asked
+    FIRST: the real kernel is only run where the model predicts a regular exit (an out-of-bounds access or the C++
+    `throw` would take the process down through the ctypes shim)."""
+    rng = ctx.np_rng
+    cases = []
+    for t, (M, kind) in enumerate(graphs):
+        M = np.array(M)
+        n = M.shape[0]
+        sym = True
+        if not kind.startswith('all') and t % 7 == 0:
+            M = M * (rng.random((n, n)) < 0.8)                    # nonsymmetric pattern (correspondence only)
+            sym = False
+        if not kind.startswith('all') and t % 5 == 0:
+            M = M + np.diag(rng.integers(0, 2, size=n))          # self loops
+        pat = (M != 0)
+        wkind = 'zero' if t % 6 == 5 else 'pos'
+        vals = [0.5, 1.0, 1.0, 2.0, 1.5] if wkind == 'pos' else [0.0, 0.0, 1.0, 0.5]
+        if sym:
+            Wm = np.triu(pat, 0) * rng.choice(vals, size=(n, n))
+            Wm = np.triu(Wm, 1) + np.triu(Wm, 0).T
+        else:
+            Wm = pat * rng.choice(vals, size=(n, n))
+        # explicit CSR so that zero weights stay stored entries
+        G = _csr(pat.astype(float))
+        G.data = np.array([Wm[i, j] for i in range(n) for j in G.indices[G.indptr[i]:G.indptr[i + 1]]], dtype=float)
+        k = int(rng.integers(1, min(n, 3) + 1))
+        centers = rng.choice(n, size=k, replace=False).astype(np.int32)
+        has_edge = bool((pat & ~np.eye(n, dtype=bool)).any())
+        for tb in (True, False):
+            for init in (('wrapper', 'lloyd') if t % 2 == 0 else ('wrapper',)):
+                cases.append(dict(kind=kind, G=G, centers=centers, tb=tb, init=init, wkind=wkind, sym=sym, has_edge=has_edge,
+                                  line=_bal_line(G, tb, _bal_state(n, centers, init))))
+        # the public wrapper; now and then a repeated / negative centre (NumPy index semantics) and CSC input
+        cw = centers.copy()
+        if t % 9 == 0 and n >= 2:
+            cw = np.append(cw, cw[0]).astype(np.int32)
+        if t % 11 == 0:
+            cw = np.append(cw, np.int32(-1 - int(rng.integers(0, n)))).astype(np.int32)
+        Gin = G
+        if t % 4 == 1:
+            Gin = sp.csc_array(G)
+            Gin.indptr = Gin.indptr.astype(np.int32)
+            Gin.indices = Gin.indices.astype(np.int32)
+        for tb in (True, False):
+            cases.append(dict(kind=kind, G=Gin, centers=cw, tb=tb, init='public', wkind=wkind, sym=sym, has_edge=has_edge,
+                              line=f'ext_c18_bfbal_w {n} {enc_ints(Gin.indptr)} {enc_ints(Gin.indices)} {enc_rats(Gin.data)} '
+                                   f'{enc_rat(TOL)} {int(tb)} {enc_ints(cw)}'))
+    outs = ctx.lean([c['line'] for c in cases])
+    again = []
+    guard = _Guard()
+
+    def crashed(c, what, status, res, line):
+        ctx.corr('kernel ' + what, {'line': line}, 'regular exit predicted', f'{status}: {res}')
+        n = c['G'].shape[0]
+        ctx.violation(f'bellman_ford_balanced ({c["init"]} initialisation, tiebreaking={c["tb"]}, centers={c["centers"].tolist()}, '
+                      f'{c["wkind"]} weights) did not return where the model predicts a regular exit: {status} {res}',
+                      {'routine': 'bf_balanced', 'init': c['init'] if c['init'] != 'public' else 'wrapper', 'tb': c['tb'], 'n': n,
+                       'indptr': c['G'].indptr.tolist(), 'indices': c['G'].indices.tolist(), 'data': c['G'].data.tolist(),
+                       'centers': [int(v) % n for v in c['centers']], 'M': (c['G'].toarray() != 0).astype(int).tolist()})
+
+    for c, o in zip(cases, outs):
+        G, centers, tb, n = c['G'], c['centers'], c['tb'], c['G'].shape[0]
+        what = 'bf_balanced(' + c['init'] + ')'
+        ctx.feat('kernel:' + what)
+        ctx.feat('bal_weights:' + c['wkind'])
+        if o in ('fault', 'too-many-iterations'):
+            # the model predicts undefined behaviour / the C++ throw: the real kernel is NOT run on this input
+            ctx.feat(f'bal_model_predicts:{o}:{c["wkind"]}:{c["init"]}')
+            continue
+        ctx.case(key=_key(c['line']), nontrivial=c['has_edge'],
+                 sample={'request': c['line'][:200], 'model': o[:100]} if ctx.evaluations % 499 == 0 else None)
+        if c['init'] == 'public':
+            Gk = sp.csr_array((G.data, G.indices, G.indptr), shape=G.shape)   # the graph the kernel sees
+            status, res = guard.call('public', G, centers, 'balanced', tb)
+            if status == 'raised' and res.split(':')[0] in ('ValueError', 'IndexError'):
+                if o != res.split(':')[0]:
+                    ctx.corr('kernel ' + what, {'line': c['line']}, o, res)
+                continue
+            if status != 'ok':
+                crashed(c, what, status, res, c['line'])
+                continue
+            d, m, p = res
+            out = ';'.join([_enc_d(d), enc_ints(m), enc_ints(p)])
+        else:
+            status, res = guard.call('kernel', n, G.indptr, G.indices, G.data, centers, _bal_state(n, centers, c['init']), tb)
+            if status != 'ok':
+                crashed(c, what, status, res, c['line'])
+                continue
+            st, ch = res
+            out = _bal_out(st, ch)
+            d, m, p = st[0], st[1], st[2]
+            Gk = G
+            again.append((c, tuple(a.copy() for a in st)))
+        if o != out:
+            ctx.corr('kernel ' + what, {'line': c['line']}, o, out)
+            if c['wkind'] == 'pos' and len(set(int(v) % n for v in centers)) == len(centers):
+                # the property itself on the real output (check_bf does not look at the predecessor of a centre)
+                e = check_bf(Gk, np.array([int(v) % n for v in centers]), d, m, p)
+                if e:
+                    ctx.violation(f'bellman_ford_balanced ({c["init"]} initialisation, tiebreaking={tb}, centers={centers.tolist()}): {e}',
+                                  {'routine': 'bf_balanced', 'init': c['init'], 'tb': tb, 'n': n, 'indptr': G.indptr.tolist(),
+                                   'indices': G.indices.tolist(), 'data': G.data.tolist(), 'centers': centers.tolist(),
+                                   'M': (Gk.toarray() != 0).astype(int).tolist()})
+    # call history: the kernel called again on its own final state (as the Lloyd loop does)
+    lines = [_bal_line(c['G'], c['tb'], st) for c, st in again]
+    outs = ctx.lean(lines)
+    for (c, st), line, o in zip(again, lines, outs):
+        ctx.feat('kernel:bf_balanced(second call)')
+        if o in ('fault', 'too-many-iterations'):
+            ctx.feat(f'bal_model_predicts:{o}:{c["wkind"]}:second')
+            continue
+        ctx.case(key=_key(line), nontrivial=c['has_edge'])
+        status, res = guard.call('kernel', c['G'].shape[0], c['G'].indptr, c['G'].indices, c['G'].data, c['centers'], st, c['tb'])
+        if status != 'ok':
+            crashed(c, 'bf_balanced(second call)', status, res, line)
+            continue
+        out = _bal_out(*res)
+        if o != out:
+            ctx.corr('kernel bf_balanced(second call)', {'line': line}, o, out)
+    guard.close()
+
+
+def part_c_rcm(ctx, graphs):
+    """`symmetric_rcm` / `pseudo_peripheral_node` vs Model/ExtC18Rcm.lean: NumPy's global generator is replayed to obtain
+    the start node, the permutation returned by the model must reproduce the real result exactly."""
+    import pyamg.graph as PG
+    rng = ctx.np_rng
+    cases = []
+    for t, (M, kind) in enumerate(graphs):
+        M = np.array(M)
+        n = M.shape[0]
+        if n < 1:
+            continue
+        sym = True
+        if not kind.startswith('all') and t % 7 == 3:
+            M = M * (rng.random((n, n)) < 0.8)                    # nonsymmetric: correspondence only
+            sym = False
+        pat = (M != 0) & ~np.eye(n, dtype=bool)
+        for variant in ('diag', 'nodiag'):
+            A = pat * rng.integers(1, 9, size=(n, n)).astype(float)
+            if sym:
+                A = np.triu(A, 1)
+                A = A + A.T
+            if variant == 'diag':
+                A = A + np.diag(np.arange(1, n + 1) * 10.0)       # distinct diagonal: the permutation is visible
+            Ar = _csr(A)
+            fmt = 'csr'
+            if t % 3 == 0 and Ar.nnz:
+                # rows stored in a shuffled order (unsorted indices change the traversal, not the contract)
+                ip, ix, dx = Ar.indptr, Ar.indices.copy(), Ar.data.copy()
+                for i in range(n):
+                    q = rng.permutation(ip[i + 1] - ip[i]) + ip[i]
+                    ix[ip[i]:ip[i + 1]] = ix[q]
+                    dx[ip[i]:ip[i + 1]] = dx[q]
+                Ar = sp.csr_array((dx, ix, ip), shape=(n, n))
+                fmt = 'csr-unsorted'
+            elif t % 4 == 1:
+                Ar = sp.csc_array(Ar)
+                Ar.indptr = Ar.indptr.astype(np.int32)
+                Ar.indices = Ar.indices.astype(np.int32)
+                fmt = 'csc'
+            sd = int(rng.integers(2**31))
+            np.random.seed(sd)
+            x0 = int(np.random.rand() * n)
+            hdr = f'{n} {enc_ints(Ar.indptr)} {enc_ints(Ar.indices)} {x0}'
+            cases.append(dict(kind=kind, A=A, Ar=Ar, sd=sd, x0=x0, variant=variant, sym=sym, fmt=fmt, hdr=hdr,
+                              has_edge=bool(pat.any())))
+    outs = ctx.lean([op + c['hdr'] for c in cases for op in ('ext_c18_rcm ', 'ext_c18_ppn ')])
+    for ci, c in enumerate(cases):
+        o_rcm, o_ppn = outs[2 * ci], outs[2 * ci + 1]
+        A, Ar, n = c['A'], c['Ar'], c['A'].shape[0]
+        ctx.case(key=_key('rcm', c['hdr']), nontrivial=c['has_edge'],
+                 sample={'request': 'ext_c18_rcm ' + c['hdr'][:160], 'model': o_rcm[:100]} if ctx.evaluations % 499 == 0 else None)
+        ctx.feat('api:rcm(model)')
+        ctx.feat('rcm_format:' + c['fmt'])
+        ctx.feat('rcm_graph:' + ('symmetric' if c['sym'] else 'nonsymmetric'))
+        case = {'routine': 'rcm_model', 'A': A.tolist(), 'M': (A != 0).astype(int).tolist(), 'seed': c['sd'], 'format': c['fmt']}
+        # --- pseudo_peripheral_node
+        np.random.seed(c['sd'])
+        x, order, level = PG.pseudo_peripheral_node(Ar)
+        cnt = int(np.count_nonzero(level >= 0))
+        out = f'{int(x)};{enc_ints(order[:cnt])};{enc_ints(level)}'
+        if o_ppn != out:
+            ctx.corr('pseudo_peripheral_node', {'line': 'ext_c18_ppn ' + c['hdr']}, o_ppn, out)
+        # --- symmetric_rcm
+        np.random.seed(c['sd'])
+        try:
+            B = PG.symmetric_rcm(Ar).toarray()
+        except Exception as ex:
+            ctx.corr('symmetric_rcm', {'line': 'ext_c18_rcm ' + c['hdr']}, o_rcm, f'{type(ex).__name__}: {ex}')
+            if c['sym']:
+                ctx.violation(f'symmetric_rcm raised {type(ex).__name__}: {ex}', case)
+            continue
+        ok = o_rcm != 'none'
+        if ok:
+            pm = [int(v) for v in dec_list(o_rcm)]
+            ok = all(0 <= v < n for v in pm) and np.array_equal(B, A[np.ix_(pm, pm)]) if B.shape == (len(pm), len(pm)) else False
+            if ok and c['variant'] == 'diag' and c['sym']:
+                ok = [int(round(v / 10.0)) - 1 for v in np.diag(B)] == pm
+        if not ok:
+            ctx.corr('symmetric_rcm', {'line': 'ext_c18_rcm ' + c['hdr']}, o_rcm, B.tolist())
+            if c['sym']:
+                # the property itself, judged independently: some symmetric permutation of the input
+                good = B.shape == (n, n)
+                if good and c['variant'] == 'diag':
+                    perm = [int(round(v / 10.0)) - 1 for v in np.diag(B)]
+                    good = sorted(perm) == list(range(n)) and np.array_equal(B, A[np.ix_(perm, perm)])
+                elif good and n <= 7:
+                    good = any(np.array_equal(B, A[np.ix_(pp, pp)]) for pp in itertools.permutations(range(n)))
+                if not good:
+                    ctx.violation('symmetric_rcm: the result is not a symmetric permutation of the input', case)
+
+
+def part_c(ctx, graphs_bal, graphs_rcm):
+    part_c_bal(ctx, graphs_bal)
+    part_c_rcm(ctx, graphs_rcm)
 
 
 def run(ctx):
@@ -412,8 +915,13 @@ def run(ctx):
     else:
         ga = list(graph_stream(ctx, 6, 4000, 40))
         gb = list(graph_stream(ctx, 5, 3000, 40))
-    part_a(ctx, ga)
-    part_b(ctx, gb)
+    loops = list(loop_stream(3 if ctx.quick else 4))      # self loops exhaustively (kernels and public functions)
+    part_a(ctx, ga + loops)
+    part_b(ctx, gb + loops)
+    if ctx.quick:
+        part_c(ctx, list(graph_stream(ctx, 4, 200, 16)), list(graph_stream(ctx, 4, 200, 20)))
+    else:
+        part_c(ctx, list(graph_stream(ctx, 5, 3000, 40)), list(graph_stream(ctx, 5, 3000, 40)))
 
 
 def search(ctx):
@@ -422,6 +930,34 @@ def search(ctx):
 
 def replay(ctx, data):
     case = data['case']
+    if case.get('routine') == 'bf_balanced':
+        from pyamg import amg_core
+        n = int(case['n'])
+        G = gen.csr_from_arrays(n, case['indptr'], case['indices'], np.array(case['data'], dtype=float))
+        centers = np.array(case['centers'], dtype=np.int32)
+        st = _bal_state(n, centers, case['init'])
+        amg_core.bellman_ford_balanced(n, G.indptr, G.indices, G.data, centers, *st, bool(case['tb']))
+        e = check_bf(G, centers, st[0], st[1], st[2])
+        print('replaying bellman_ford_balanced:', e or 'specification holds')
+        if e:
+            ctx.violation(f'bellman_ford_balanced: {e}', case)
+        return
+    if case.get('routine') == 'rcm_model':
+        import pyamg.graph as PG
+        A = np.array(case['A'], dtype=float)
+        n = A.shape[0]
+        Ar = _csr(A) if case.get('format') != 'csc' else sp.csc_array(_csr(A))
+        np.random.seed(int(case['seed']))
+        good = False
+        try:
+            B = PG.symmetric_rcm(Ar).toarray()
+            good = B.shape == (n, n) and any(np.array_equal(B, A[np.ix_(pp, pp)]) for pp in itertools.permutations(range(n)))
+        except Exception as ex:
+            print('  symmetric_rcm raised', type(ex).__name__, ex)
+        print('replaying symmetric_rcm:', 'symmetric permutation' if good else 'NOT a symmetric permutation of the input')
+        if not good:
+            ctx.violation('symmetric_rcm: the result is not a symmetric permutation of the input', case)
+        return
     M = np.array(case['M'])
     print('replaying on graph', M.tolist(), {k: v for k, v in case.items() if k != 'M'})
     part_b(ctx, [(M, 'replay')])
